@@ -337,6 +337,61 @@ def generate(src):
     th = inv.env.get("theta")
     if not isinstance(th, dict) or len(th["arr"]) != 8 or any(len(r["arr"]) != 6 for r in th["arr"]):
         raise TranslateError("the `theta` table of inverse_intern is no longer 8 x 6")
+    # ---- inverse_intern_5_dof (hand-duplicated copy of the position part; table 8 x 5) ------------------
+    i5body = function_body(src, r"fn inverse_intern_5_dof\(&self, pose: &Pose, j6: f64\) -> Solutions \{", "let mut sols: [[f64; 6]; 8]")
+    i5sts = statements(i5body)
+    inv5 = Seq({"matrix": "m"})
+    for st in i5sts:
+        if st.startswith("let params = ") or st.startswith("let matrix = ") or st.startswith("let translation_vector") \
+                or st.startswith("let scaled_z_axis") or st.startswith("let c = "):
+            continue
+        if re.match(r"let theta\d_\w+$", st):
+            continue
+        st = re.sub(r"^(theta\d_\w+) = ", r"let \1 = ", st)
+        inv5.let(st)
+    flat5 = " ".join(" ".join(s.split()) for s in i5sts)
+    for n in need:
+        if n not in flat5:
+            raise TranslateError("inverse_intern_5_dof no longer contains: " + n)
+    th5 = inv5.env.get("theta")
+    if not isinstance(th5, dict) or len(th5["arr"]) != 8 or any(len(r["arr"]) != 5 for r in th5["arr"]):
+        raise TranslateError("the `theta` table of inverse_intern_5_dof is no longer 8 x 5")
+    # ---- forward_with_joint_poses: sign/offset map and the chain of six `Isometry3::from_parts` --------
+    cbody = function_body(src, r"fn forward_with_joint_poses\(&self, joints: &Joints\) -> \[Pose; 6\] \{", "\n    }\n")
+    csts = statements(cbody + ";")
+    ctheta = Seq({"joints": {"arr": [f"j.{f}" for f in FIELD_J]}})
+    chain_lines, pose_names = [], []
+    cenv = {f"q{k}": f"q.{FIELD_J[k - 1]}" for k in range(1, 7)}
+    part = (r"Isometry3::from_parts\( Translation3::new\((.*)\), UnitQuaternion::from_axis_angle\(&(?:nalgebra::)?Vector3::([xyz])_axis\(\), (\w+)\),? \)")
+    for st in csts:
+        if st.startswith("let p = "):
+            continue
+        if re.match(r"let (q[1-6]) = ", st):
+            ctheta.let(st)
+            continue
+        m = re.match(r"let (pose\d) = (?:(pose\d) \* )?" + part + "$", st)
+        if m:
+            name, parent, tr3, axis, ang = m.groups()
+            comps = [parse_expr(t, cenv) for t in split_top(tr3)]
+            if len(comps) != 3 or ang not in cenv or axis == "x":
+                raise TranslateError("forward_with_joint_poses: unsupported link " + st[:60])
+            rot = {"z": "Quat.rotZ", "y": "Quat.rotY"}[axis]
+            rhs = f"⟨⟨{comps[0]}, {comps[1]}, {comps[2]}⟩, {rot} {cenv[ang]}⟩"
+            if parent:
+                if parent not in pose_names:
+                    raise TranslateError("forward_with_joint_poses: unknown parent " + parent)
+                rhs = f"{parent}_.mul {rhs}"
+            chain_lines.append(f"  let {name}_ : Iso R := {rhs}")
+            pose_names.append(name)
+            continue
+        m = re.match(r"\[(pose\d(?:, pose\d)*)\]$", st)
+        if m:
+            result_names = [x.strip() for x in m.group(1).split(",")]
+            continue
+        raise TranslateError("forward_with_joint_poses: unsupported statement " + st[:80])
+    cqs = [ctheta.env[f"q{k}"] for k in range(1, 7)]
+    if result_names != pose_names or len(pose_names) != 6:
+        raise TranslateError("forward_with_joint_poses no longer returns its six poses in order")
     L = []
     L.append("/- GENERATED by tools/rs2lean.py from /repo/src/kinematics_impl.rs on every run. Do not edit.")
     L.append("   Straight-line arithmetic of `forward` and `inverse_intern`, translated expression by expression. -/")
@@ -364,6 +419,25 @@ def generate(src):
     L += inv.lines
     rows = ["⟨" + ", ".join(r["arr"]) + "⟩" for r in th["arr"]]
     L.append("  [" + ",\n   ".join(rows) + "]")
+    L.append("")
+    L.append("/-- the sign/offset map as written in `forward_with_joint_poses` -/")
+    L.append("def thetaOfChainSrc (p : Params R) (j : J6 R) : J6 R :=")
+    L += ctheta.lines
+    L.append("  ⟨" + ", ".join(cqs) + "⟩")
+    L.append("")
+    L.append("/-- `forward_with_joint_poses`: the chain of six `Isometry3::from_parts(Translation3, from_axis_angle)` in θ-space -/")
+    L.append("def chainThetaSrc (p : Params R) (q : J6 R) : List (Iso R) :=")
+    L += chain_lines
+    L.append("  [" + ", ".join(n + "_" for n in pose_names) + "]")
+    L.append("")
+    L.append("/-- the eight raw θ1..θ5 vectors of `inverse_intern_5_dof` (table `theta`, 8 x 5; θ6 slot filled with 0) -/")
+    L.append("def thetaCandidates5Src (p : Params R) (pose : Iso R) : List (J6 R) :=")
+    L.append("  let m := pose.q.toMat")
+    L.append("  let zv := m.mulVec V3.ez")
+    L.append("  let c : V3 R := pose.t.sub ⟨p.c4 * zv.x, p.c4 * zv.y, p.c4 * zv.z⟩")
+    L += inv5.lines
+    rows5 = ["⟨" + ", ".join(r["arr"] + ["0"]) + "⟩" for r in th5["arr"]]
+    L.append("  [" + ",\n   ".join(rows5) + "]")
     L.append("")
     L.append("end Opw.Src")
     return "\n".join(L) + "\n"
